@@ -295,7 +295,6 @@ Variable enc : N -> bytes.
 Variable venc : N -> bytes.
 Hypothesis Hi : id_ok i.
 Hypothesis enc_inj : forall k1 k2, enc k1 = enc k2 -> k1 = k2.
-Hypothesis venc_nonempty : forall x, venc x <> [].
 
 Notation dk := (dkey i enc).
 Notation tk := (tkey i enc).
@@ -428,7 +427,7 @@ Proof.
   assert (Hu : id_ok u) by (apply (rf_versions i enc venc c s R k u); congruence).
   pose proof (entry_cases k u Hu) as EC. rewrite EU in EC. destruct EC as [E1 E2].
   rewrite (find_unique _ _ (dk k u)).
-  - rewrite E1. pose proof (venc_nonempty x). destruct (venc x); [contradiction|reflexivity].
+  - rewrite E1. reflexivity.
   - apply key_versions_char. exists u. split; [exact Hu|left]. split; [reflexivity|congruence].
   - unfold dkey, construct_data_key, key_version. rewrite version_of_data_key by exact Hu.
     rewrite marker_of_data_key, N.eqb_refl. reflexivity.
@@ -866,16 +865,16 @@ End CopySim.
 (* every read of the copy equals the read of the source, at every version *)
 Lemma copy_point_reads_equal i j enc venc c s k v :
   i < 2 ^ 32 - 1 -> id_ok j -> i <> j ->
-  (forall k1 k2, enc k1 = enc k2 -> k1 = k2) -> (forall x, venc x <> []) ->
+  (forall k1 k2, enc k1 = enc k2 -> k1 = k2) ->
   CoreInv c -> Refines i enc venc c s -> instance_slice j s = [] ->
   (forall e, In e s -> in_rangeb (fst (key_range i)) (snd (key_range i)) (fst e) = true -> of_instance i (fst e) = true) ->
   point_get (best_of_core c v) (rcx j v) (enc k) (copy_instance i j s)
   = point_get (best_of_core c v) (rcx i v) (enc k) s.
 Proof.
-  intros Hi Hj NE EI VN I R F SO.
+  intros Hi Hj NE EI I R F SO.
   assert (Hio : id_ok i) by (unfold id_ok; change (2 ^ 32) with 4294967296 in *; lia).
-  rewrite (refine_point_get j enc venc Hj EI VN c _ (copy_refines_dst i j enc venc Hi Hj NE EI c s R F SO) I).
-  now rewrite (refine_point_get i enc venc Hio EI VN c s R I).
+  rewrite (refine_point_get j enc venc Hj EI c _ (copy_refines_dst i j enc venc Hi Hj NE EI c s R F SO) I).
+  now rewrite (refine_point_get i enc venc Hio EI c s R I).
 Qed.
 
 Lemma copy_raw_id_get c k v : CoreInv c -> get (copy_raw (fun k => Some k) c) k v = get c k v.
